@@ -67,6 +67,15 @@ CHECKS = {
              "abi_stable's comparison itself distinguishes every single-edit interface change (third-party run-time comparison).",
         note="abi_stable is trusted; the clause `never Valid when interfaces differ` is reduced to `every field of every generated struct participates in the description`",
         ref="4 C20"),
+    "C18": dict(
+        cat="other",
+        technique="call-graph reachability of order-exposing hash iteration from main with per-site sink classification; flow-insensitive taint propagation in main for the argument partition",
+        text="two clauses are claimed: (R) byte-identical output across runs, decided as `no hash-ordered sequence or other nondeterminism source reachable "
+             "from main flows into the output` (exceptions machine-checked per site), and (A) pre/post `--` argument partition and the written value. "
+             "NOT decided: that the output is a self-contained header a C99/C++11 compiler accepts, and that foreign declarations survive unmodified in "
+             "order -- properties of a regex rewrite's input->output function that need the tool to run.",
+        note="taint analysis is flow-insensitive and intra-procedural (main); regex-crate and itertools internals are trusted to be deterministic",
+        ref="4 C18"),
 }
 
 NOT_APPLICABLE = {
